@@ -67,6 +67,31 @@ def run(tier, seed):
                                  f"p, q = on.compile({t!r}), off.compile({t!r})\ndocs = {all_docs!r}\nfc = {fc!r}\nbad = 0\nfor rnd in range(2):\n    for d in docs:\n        a, b = p.findall(d, filter_context=fc), q.findall(d, filter_context=fc)\n        if a != b: print('caching on', a, 'off', b, 'on', d); bad = 1\nsys.exit(bad)")
         if str(p_on) != text_before:
             rec.fail(f"mutated:{t}", f"evaluating {t!r} changed the compiled query: {text_before!r} -> {str(p_on)!r}", "sys.exit(2)")
+    # one compiled query reused on documents of different shapes must give what a freshly compiled query gives
+    # (nothing learnt from an earlier document may be kept), and never returns or extends the document's own lists
+    reuse_docs = [{"a": [1, 2, 3]}, {"a": [1, 2, 3, 4, 5]}, {"a": [9]}, [1, 2, 3], [4, 5], {"a": {"b": [1, 2]}}, [[1, 2], [3]]]
+    for t in ("$.a[-1]", "$.a[-2]", "$[-1]", "$.a[1:]", "$.a[::-1]", "$..[-1]", "$.* | $[0]", "$[*] | $[0]", "$.* | $.*", "$[*] & $[*]", "$.a.* | $.a[0]", "$.a[?@ > $.a[-1]]", "$.a[?@ == $.a[-1]]"):
+        try:
+            p = on.compile(t)
+        except Exception:  # noqa: BLE001
+            continue
+        for rnd in range(2):
+            for d in reuse_docs:
+                d0 = copy.deepcopy(d)
+                try:
+                    got = [(m.obj, m.path) for m in p.finditer(d)]
+                    got_all = p.findall(d)
+                    fresh = [(m.obj, m.path) for m in on.compile(t).finditer(copy.deepcopy(d0))]
+                    fresh_all = off.compile(t).findall(copy.deepcopy(d0))
+                except Exception as e:  # noqa: BLE001
+                    rec.fail(f"reuse:{t}", f"{t!r} on {d0!r}: {type(e).__name__}: {e}", "sys.exit(2)")
+                    continue
+                if repr(got) == repr(fresh) and repr(got_all) == repr(fresh_all) and repr(d) == repr(d0):
+                    rec.ok(("reuse", t, repr(d0), rnd))
+                else:
+                    what = "the document was modified" if repr(d) != repr(d0) else "a reused compiled query differs from a fresh one"
+                    rec.fail(f"reuse:{t}|{d0!r}", f"{t!r} compiled once and reused, on {d0!r} (round {rnd}): {what}: reused {got_all!r} / {got!r}, fresh {fresh_all!r} / {fresh!r}, document now {d!r}",
+                             f"import jsonpath\np = jsonpath.compile({t!r})\ndocs = {reuse_docs!r}\nbad = 0\nfor d in docs:\n    a = p.findall(d); b = jsonpath.compile({t!r}).findall(d)\n    if a != b: print(d, a, b); bad = 1\nsys.exit(bad)")
     # documents given as JSON text: every evaluation sees a freshly decoded value - what a caller does to the
     # values it got back must not show up in a later evaluation of the same text
     import json as _json
